@@ -1309,6 +1309,9 @@ class VariationalWassersteinDistance(darsia.EMD):
         # NOTE: The indices have to be restored if the LU factorization is to be used
         # FIXME omit if not required
         self.fully_reduced_jacobian.indices = self.fully_reduced_jacobian_indices.copy()
+        # The restored indices are not sorted (the LU factorization sorts them in place);
+        # scipy caches that property, so reset it together with the indices.
+        self.fully_reduced_jacobian.has_sorted_indices = False
 
         # Rhs is not affected by Gauss elimination as it is assumed that the residual
         # is zero in the constrained cell, and the pressure is zero there as well.
